@@ -3,9 +3,11 @@ package main
 import (
 	"encoding/json"
 	"fmt"
+	"reflect"
 	"runtime"
 	"runtime/debug"
 	"sort"
+	"time"
 
 	be "github.com/echoface/be_indexer"
 	"github.com/echoface/be_indexer/roaringidx"
@@ -393,7 +395,7 @@ func genRrCase(r *Rand, nFields int, acPct int, hintPct int, nOps int, nScanners
 	return c
 }
 
-const rrRule = "seeded roaring cases: 1..5 configured fields (0 fields rarely), document sets as in C01 with ids up to +-(2^55-1), operation sequences over 1..4 scanners sharing one index (Reset, WithHint with known/unknown/out-of-range ids, Retrieve, RetrieveDocs, GetRawResult, also without Reset in between; a third more cases over a pattern-container field; a third more cases with failing retrievals (unsupported value on one field) injected on other scanners); document ids added again with other or fewer conjunctions (outside the specification's domain: decided by the model leg), indexes of catch-all documents only, include lists that are empty; the hint ids are passed from a caller's buffer that is refilled with other ids as soon as WithHint has returned; fields named by the dense id allocator queried with typed lists holding unknown texts; indexes without any include expression queried on no configured field under hints with unknown and negative ids; non-trivial = some retrieval returns a non-empty proper subset of the accepted documents; distinct = distinct input"
+const rrRule = "seeded roaring cases: 1..5 configured fields (0 fields rarely), document sets as in C01 with ids up to +-(2^55-1), operation sequences over 1..4 scanners sharing one index (Reset, WithHint with known/unknown/out-of-range ids, Retrieve, RetrieveDocs, GetRawResult, also without Reset in between; a third more cases over a pattern-container field; a third more cases with failing retrievals (unsupported value on one field) injected on other scanners); document ids added again with other or fewer conjunctions (outside the specification's domain: decided by the model leg), indexes of catch-all documents only, include lists that are empty; the hint ids are passed from a caller's buffer that is refilled with other ids as soon as WithHint has returned; fields named by the dense id allocator queried with typed lists holding unknown texts; indexes without any include expression queried on no configured field under hints with unknown and negative ids; number-range fields whose expression value is a list of descriptions, stepped before and after step-less ones; non-trivial = some retrieval returns a non-empty proper subset of the accepted documents; distinct = distinct input"
 
 func init() {
 	mk := func(hintPct int, zeroFields bool) func(tier string, r *Rand, add func(in interface{})) {
@@ -548,6 +550,28 @@ func init() {
 				}
 				add(c)
 			}
+			// a field read by the number-range parser whose expression value is a LIST of descriptions, stepped ones before
+			// and after step-less ones: every description enumerates with its own step
+			{
+				descs := func(ss ...string) TV {
+					l := make([]TV, len(ss))
+					for i, x := range ss {
+						l[i] = tvStr(x)
+					}
+					return tvSlice("[]string", l...)
+				}
+				c := rCase{Fields: []rField{{F: 0, Cont: "default", Parser: "numrange"}, {F: 1, Cont: "default"}}}
+				c.Docs = []eDoc{
+					{ID: 1, Cons: []eConj{{{F: 0, Inc: true, V: descs("10:30:10", "40:45")}}}},
+					{ID: 2, Cons: []eConj{{{F: 0, Inc: true, V: descs("40:45", "10:30:10")}}}},
+					{ID: 3, Cons: []eConj{{{F: 0, Inc: false, V: descs("10:30:10", "40:45")}, {F: 1, Inc: true, V: tvStr("bj")}}}},
+					{ID: 4, Cons: []eConj{{{F: 0, Inc: true, V: tvList(tvStr("0:9:3"), tvStr("20:22"), tvStr("30:40:5"), tvStr("50:52"))}}}},
+				}
+				for i, a := range []int64{41, 20, 45, 10, 15, 21, 35, 51, 6, 7, 44, 30} {
+					c.Ops = append(c.Ops, rOp{S: 0, Op: "reset"}, rOp{S: 0, Op: []string{"retrieve", "docs"}[i%2], A: []eAssign{{F: 0, V: tvInt("int", a)}, {F: 1, V: tvStr("bj")}}}, rOp{S: 0, Op: "raw"})
+				}
+				add(c)
+			}
 			// value identity is 64 bits wide: values that agree in their low 32 bits (number parser: differing by a
 			// multiple of 2^32; -1 vs 4294967295) must keep separate posting lists, as include and as exclude
 			{
@@ -602,5 +626,52 @@ func init() {
 		}
 	}
 	props["C03"] = &propDef{header: "From BE Require Import Corr.CheckC03.", rule: rrRule, shardSize: 30, gen: mk(0, true), exec: execRr}
-	props["C15"] = &propDef{header: "From BE Require Import Corr.CheckC15.", rule: rrRule + "; hints on 60% of the fresh scanners", shardSize: 30, gen: mk(60, false), exec: execRr}
+	props["C15"] = &propDef{header: "From BE Require Import Corr.CheckC15.", rule: rrRule + "; hints on 60% of the fresh scanners", shardSize: 30, gen: mk(60, false), exec: execRr,
+		// a raw result the caller keeps (by value) after dropping its scanner must stay what it was, whatever the
+		// garbage collector and later scanners do (the model has no collector: Go-side probe)
+		extra: func(tier string, seed uint64, outdir string) (map[string]interface{}, []string) {
+			calls, viol := rawKeptProbe()
+			return map[string]interface{}{"raw_results_kept_after_their_scanner": calls}, viol
+		}}
+}
+
+// rawKeptProbe: one scanner per request; the hinted raw result is kept by value, the scanner dropped, collections
+// forced and other scanners run -- the kept result must still be the unhinted raw result restricted to the hints
+func rawKeptProbe() (calls int, viol []string) {
+	b := roaringidx.NewIndexerBuilder()
+	b.ConfigureField(string(fieldName(0)), roaringidx.FieldSetting{Container: "default"})
+	for id := int64(1); id <= 40; id++ {
+		d := eDoc{ID: id, Cons: []eConj{{{F: 0, Inc: true, V: tvSlice("[]int", tvInt("int", id%3))}}, {{F: 0, Inc: true, V: tvSlice("[]int", tvInt("int", 1), tvInt("int", 7))}}}}
+		if err := b.AddDocument(d.build()); err != nil {
+			return 0, []string{"raw-result probe: AddDocument failed: " + err.Error()}
+		}
+	}
+	idx, err := b.BuildIndexer()
+	if err != nil {
+		return 0, []string{"raw-result probe: BuildIndexer failed: " + err.Error()}
+	}
+	one := func(hints []int64, v int) (roaringidx.PostingList, []uint64) {
+		sc := roaringidx.NewScanner(idx)
+		if hints != nil {
+			sc.WithHint(hints...)
+		}
+		sc.Retrieve(be.Assignments{fieldName(0): v})
+		raw := *sc.GetRawResult() // kept by value; the scanner is dropped when this returns
+		return raw, raw.ToArray()
+	}
+	for round := 0; round < 12; round++ {
+		hints := []int64{int64(2 + round), int64(3 + round), 77}
+		raw, want := one(hints, 1)
+		calls++
+		runtime.GC()
+		time.Sleep(2 * time.Millisecond)
+		runtime.GC()
+		for k := 0; k < 3; k++ {
+			one(nil, k)
+		}
+		if got := raw.ToArray(); !reflect.DeepEqual(got, want) && len(viol) < 3 {
+			viol = append(viol, fmt.Sprintf("a hinted raw result kept by the caller changed after its scanner was dropped: %v, was %v (hints %v)", got, want, hints))
+		}
+	}
+	return
 }
